@@ -86,9 +86,13 @@ Section WithAtan2.
     match goal with |- context [sqrt ?e] => replace (sqrt e) with (horiz m) by (unfold horiz; f_equal; ring) end.
     set (h := horiz m) in *.
     assert (hpos : 0 < h) by lra.
-    destruct (ta_eval_trig 1 (- ac m) h) as [Ecp Esp]; [nra|].
-    destruct (ta_eval_trig 1 (ab m) (aa m)) as [Ecy Esy]; [nra|].
-    destruct (ta_eval_trig 1 (bc m) (cc m)) as [Ecr Esr]; [nra|].
+    (* the number of [% 360] reductions of each component is whatever the source has today *)
+    match goal with |- context [ta_eval atan2 (TaAtan2 ?n (- ac m) h)] =>
+      destruct (ta_eval_trig n (- ac m) h) as [Ecp Esp]; [nra|] end.
+    match goal with |- context [ta_eval atan2 (TaAtan2 ?n (ab m) (aa m))] =>
+      destruct (ta_eval_trig n (ab m) (aa m)) as [Ecy Esy]; [nra|] end.
+    match goal with |- context [ta_eval atan2 (TaAtan2 ?n (bc m) (cc m))] =>
+      destruct (ta_eval_trig n (bc m) (cc m)) as [Ecr Esr]; [nra|] end.
     replace (h * h + - ac m * - ac m) with 1 in Ecp, Esp by lra. rewrite sqrt_1 in Ecp, Esp.
     replace (aa m * aa m + ab m * ab m) with (h * h) in Ecy, Esy by lra.
     replace (cc m * cc m + bc m * bc m) with (h * h) in Ecr, Esr by lra.
@@ -118,8 +122,10 @@ Section WithAtan2.
     set (h := horiz m) in *.
     assert (bcb : bc m * bc m <= h * h) by nra.
     assert (n2pos : 0 < bb m * bb m + - ba m * - ba m) by nra.
-    destruct (ta_eval_trig 1 (- ac m) h) as [Ecp Esp]; [nra|].
-    destruct (ta_eval_trig 1 (- ba m) (bb m)) as [Ecy Esy]; [lra|].
+    match goal with |- context [ta_eval atan2 (TaAtan2 ?n (- ac m) h)] =>
+      destruct (ta_eval_trig n (- ac m) h) as [Ecp Esp]; [nra|] end.
+    match goal with |- context [ta_eval atan2 (TaAtan2 ?n (- ba m) (bb m))] =>
+      destruct (ta_eval_trig n (- ba m) (bb m)) as [Ecy Esy]; [lra|] end.
     replace (h * h + - ac m * - ac m) with 1 in Ecp, Esp by lra. rewrite sqrt_1 in Ecp, Esp.
     set (n := sqrt (bb m * bb m + - ba m * - ba m)) in *.
     assert (npos : 0 < n) by (apply sqrt_lt_R0, n2pos).
